@@ -627,7 +627,7 @@ class C16(Prop):
         shapes = [(1, 'none'), (1, 'cbonly'), (2, 'none'), (2, 'some'), (2, 'nocommit'), (3, 'all'), (3, 'some'),
                   (4, 'cbonly'), (5, 'some'), (5, 'none'), (8, 'all'), (9, 'some'), (2, 'all'), (3, 'nocommit'),
                   (6, 'some'), (7, 'none')]
-        rounds = 12 if big else 1
+        rounds = 60 if big else 1
         for r in range(rounds):
             for k, (ntx, wm) in enumerate(shapes):
                 if not mine():
@@ -647,7 +647,7 @@ class C16(Prop):
                     t = big_tx(rng, size, cb)
                     yield mk('c16.checktx', 'regtest', 'i', txfmt.show_tx(t), tag='tx-size-%d' % size)
         # (c) stand-alone transactions under each chain, both classes
-        for r in range(6 if big else 1):
+        for r in range(30 if big else 1):
             for chain in CHAINS:
                 for kind in ('tx', 'cb'):
                     if not mine():
@@ -699,7 +699,7 @@ class C16(Prop):
                     for z in interesting:
                         yield mk('c16.spec.sigops', bytes([x, y, z]).hex(), tag='spec sigops 3 bytes')
                         yield mk('c16.sigops', bytes([x, y, z]).hex(), tag='sigops 3 bytes')
-        for r in range(40 if big else 4):
+        for r in range(200 if big else 4):
             if not mine():
                 continue
             for _ in range(60):
@@ -724,6 +724,14 @@ class C16(Prop):
                         s += rnd_bytes(rng, rng.randrange(0, 5))
                 yield mk('c16.sigops', s.hex(), tag='sigops grammar')
                 yield mk('c16.spec.sigops', s.hex(), tag='spec sigops grammar')
+        if big:
+            # every 2-byte script
+            for x in range(256):
+                if not mine():
+                    continue
+                for y in range(256):
+                    yield mk('c16.sigops', bytes([x, y]).hex(), tag='sigops all 2 bytes')
+                    yield mk('c16.spec.sigops', bytes([x, y]).hex(), tag='spec sigops all 2 bytes')
         if mine():
             for s in (b'\xac' * 20001, b'\xae' * 1001, b'\xac' * 300 + push(b'\xac' * 300) + b'\xaf' * 7):
                 yield mk('c16.sigops', s.hex(), tag='sigops long')
